@@ -63,12 +63,13 @@ func (f fault) String() string {
 }
 
 type outcome struct {
-	fired              bool
-	clientOps, srvOps  int
-	clientT, srvT      []time.Duration
-	dialErr            error
-	established        bool
-	failure            string
+	fired             bool
+	clientOps, srvOps int
+	clientT, srvT     []time.Duration
+	dialErr, echoErr  error
+	established       bool
+	frozen            bool
+	failure           string
 }
 
 var laddr = ma.StringCast("/ip4/10.0.0.2/tcp/4001")
@@ -82,14 +83,14 @@ func attempt(cfg config, faults []fault) (o outcome) {
 	nw := memtpt.NewNetwork()
 	nw.Latency = time.Millisecond
 	var (
-		planC, planS   *faultconn.Plan
-		refC, refS     *refusal
-		gC, gS         *gater
-		cancelAt       time.Duration = -1
-		lcloseAt       time.Duration = -1
-		acceptDelay    time.Duration
-		hangup         bool
-		closeAfter     = map[string]time.Duration{}
+		planC, planS *faultconn.Plan
+		refC, refS   *refusal
+		gC, gS       *gater
+		cancelAt     time.Duration = -1
+		lcloseAt     time.Duration = -1
+		acceptDelay  time.Duration
+		hangup       bool
+		closeAfter   = map[string]time.Duration{}
 	)
 	for _, f := range faults {
 		switch f.Class {
@@ -127,14 +128,15 @@ func attempt(cfg config, faults []fault) (o outcome) {
 			closeAfter[f.Side] = f.At
 		}
 	}
+	armed := true
 	nw.PlanDial = func(n int) *faultconn.Plan {
-		if n == 0 {
+		if n == 0 && armed {
 			return planC
 		}
 		return nil
 	}
 	nw.PlanAccept = func(n int) *faultconn.Plan {
-		if n == 0 {
+		if n == 0 && armed {
 			return planS
 		}
 		return nil
@@ -172,8 +174,22 @@ func attempt(cfg config, faults []fault) (o outcome) {
 		cc.Close()
 	}
 	if cc != nil {
+		if _, ok := closeAfter["client"]; ok {
+			o.fired = true
+		}
 		if d, ok := closeAfter["client"]; ok {
-			go func() { time.Sleep(d); cc.Close() }()
+			go func() { time.Sleep(time.Until(t0.Add(d))); cc.Close() }()
+		}
+	}
+	// the attempt includes one stream round trip, so that faults at later operations and
+	// span / memory refusals hit stream opening and data transfer too (errors are allowed)
+	var early []transport.CapableConn
+	if cc != nil && !hangup && acceptDelay == 0 {
+		time.Sleep(50 * time.Millisecond)
+		synctest.Wait()
+		early = acc.take()
+		if len(early) == 1 {
+			o.echoErr = echo(cc, early[0])
 		}
 	}
 	// quiescence: every timeout (accept 15 s, negotiate 60 s, dial 30 s) and the managers' GC tick pass
@@ -208,7 +224,7 @@ func attempt(cfg config, faults []fault) (o outcome) {
 	if derr != nil && (cancelAt >= 0 || lcloseAt >= 0) {
 		o.fired = true
 	}
-	srvConns := acc.take()
+	srvConns := append(early, acc.take()...)
 	o.established = cc != nil && len(srvConns) > 0
 	if acceptDelay > 0 {
 		o.fired = true
@@ -258,6 +274,12 @@ func attempt(cfg config, faults []fault) (o outcome) {
 		if gC != nil {
 			gC.hook = ""
 		}
+		for _, r := range []*refusal{refC, refS} {
+			if r != nil {
+				r.off.Store(true)
+			}
+		}
+		armed = false
 		ctx2, cancel2 := context.WithTimeout(context.Background(), 30*time.Second)
 		cc2, err := client.tpt.Dial(ctx2, laddr, server.id.ID)
 		cancel2()
@@ -298,7 +320,14 @@ func attempt(cfg config, faults []fault) (o outcome) {
 
 func run(t *testing.T, cfg config, faults []fault) outcome {
 	var o outcome
-	if msg := hx.RunBubble(t, func() { o = attempt(cfg, faults) }); msg != "" && o.failure == "" {
+	var res outcome
+	msg := hx.RunBubble(t, func() { res = attempt(cfg, faults) })
+	if strings.HasPrefix(msg, hx.Frozen) {
+		// res may still be written by the abandoned bubble: do not touch it
+		return outcome{frozen: true}
+	}
+	o = res
+	if msg != "" && o.failure == "" {
 		o.failure = fmt.Sprintf("%s [%v]: %s", cfg, faults, msg)
 	}
 	return o
@@ -328,6 +357,10 @@ func enumerate(dry outcome) []fault {
 		}
 	}
 	sort.Slice(ts, func(i, j int) bool { return ts[i] < ts[j] })
+	// only the instants of the attempt itself (later ones belong to yamux keep-alives)
+	for len(ts) > 1 && ts[len(ts)-1] > time.Second {
+		ts = ts[:len(ts)-1]
+	}
 	ts = append(ts, ts[len(ts)-1]+3*time.Millisecond)
 	for _, x := range ts {
 		fs = append(fs, fault{Class: "cancel", Side: "client", At: x + 500*time.Microsecond})
@@ -359,9 +392,15 @@ func recordCase(name string, cfg config, fs []fault, o outcome) {
 	}
 	if o.fired {
 		labels = append(labels, "fault-fired")
+		for _, f := range fs {
+			labels = append(labels, "fired:"+f.Class)
+		}
 	}
 	if o.established {
 		labels = append(labels, "established")
+	}
+	if o.frozen {
+		labels = append(labels, "inconclusive:frozen-bubble")
 	}
 	stats.CaseEnumerated(name, o.fired, labels...)
 	if o.fired && stats.WantSample(name) {
